@@ -291,3 +291,118 @@ Proof.
   - rewrite andb_true_iff, N.eqb_eq, IH. split; [intros [-> ->]; reflexivity|].
     intros E. inversion E. split; reflexivity.
 Qed.
+
+(** ** from the size of an encoding to well-formedness
+    [typed]: what every Rust value satisfies or [as_vec] panics on (integer ranges, fixed
+    lengths, Octets < 2^16, NUL-free strings, consistent streamed PSBTs); [wf] additionally
+    bounds array counts and blob sizes.  Those follow from the encoding fitting [bound]
+    whenever an array's elements are at least [k] bytes with [bound < k * 2^16]. *)
+Definition size_wf {A} (enc : A -> bytes) (typed wf : A -> bool) (bound : N) : Prop :=
+  forall x, typed x = true -> lenN (enc x) <= bound -> wf x = true.
+Definition min_size {A} (enc : A -> bytes) (typed : A -> bool) (k : N) : Prop :=
+  forall x, typed x = true -> k <= lenN (enc x).
+
+Lemma lenN_app {A} (a b : list A) : lenN (a ++ b) = lenN a + lenN b.
+Proof. unfold lenN. rewrite app_length. lia. Qed.
+Lemma lenN_cons {A} (a : A) b : lenN (a :: b) = 1 + lenN b.
+Proof. unfold lenN. cbn [length]. lia. Qed.
+Lemma lenN_be n v : lenN (be_enc n v) = N.of_nat n.
+Proof. unfold lenN. rewrite be_enc_length. reflexivity. Qed.
+Lemma lenN_le n v : lenN (le_enc n v) = N.of_nat n.
+Proof. unfold lenN. rewrite le_enc_length. reflexivity. Qed.
+
+Lemma sw_same {A} (enc : A -> bytes) (wf : A -> bool) bound : size_wf enc wf wf bound.
+Proof. intros x H _. exact H. Qed.
+Lemma ms_zero {A} (enc : A -> bytes) (ty : A -> bool) : min_size enc ty 0.
+Proof. intros x _. lia. Qed.
+Lemma ms_be n : min_size (be_enc n) (fits n) (N.of_nat n).
+Proof. intros v _. rewrite lenN_be. lia. Qed.
+Lemma ms_le n : min_size (le_enc n) (fits n) (N.of_nat n).
+Proof. intros v _. rewrite lenN_le. lia. Qed.
+Lemma ms_bool : min_size enc_bool wf_bool 1.
+Proof. intros b _. unfold enc_bool. rewrite lenN_cons. lia. Qed.
+Lemma ms_fixed n : min_size (enc_fixed n) (wf_fixed n) (N.of_nat n).
+Proof. intros l H. apply Nat.eqb_eq in H. unfold enc_fixed, lenN. rewrite H. lia. Qed.
+Lemma ms_option {A} (enc : A -> bytes) ty : min_size (enc_option enc) (wf_option ty) 1.
+Proof. intros [x|] _; cbn [enc_option]; unfold enc_bool; cbn [app]; rewrite lenN_cons; lia. Qed.
+Lemma ms_octets : min_size enc_octets wf_octets 2.
+Proof. intros l _. unfold enc_octets, enc_u16. rewrite lenN_app, lenN_be. lia. Qed.
+Lemma ms_largeoctets ty : min_size enc_largeoctets ty 4.
+Proof. intros l _. unfold enc_largeoctets, enc_u32. rewrite lenN_app, lenN_be. lia. Qed.
+Lemma ms_wirestring : min_size enc_wirestring wf_wirestring 1.
+Proof. intros l _. unfold enc_wirestring. rewrite lenN_app, lenN_cons. lia. Qed.
+Lemma ms_array {A} (enc : A -> bytes) ty : min_size (enc_array enc) ty 2.
+Proof. intros l _. unfold enc_array, enc_u16. rewrite lenN_app, lenN_be. lia. Qed.
+Lemma ms_withsize {A} (ser : A -> bytes) ty : min_size (enc_withsize ser) ty 4.
+Proof. intros x _. unfold enc_withsize, enc_u32. rewrite lenN_app, lenN_be. lia. Qed.
+
+Lemma sw_option {A} (enc : A -> bytes) ty wf bound :
+  size_wf enc ty wf bound -> size_wf (enc_option enc) (wf_option ty) (wf_option wf) bound.
+Proof.
+  intros H [x|] Ht Hs; [|reflexivity]. cbn [wf_option] in *. apply H; [exact Ht|].
+  cbn [enc_option] in Hs. rewrite lenN_app in Hs. lia.
+Qed.
+
+Lemma sw_largeoctets bound : (bound <=? MAX_VEC_SIZE) = true ->
+  size_wf enc_largeoctets (fun _ => true) wf_largeoctets bound.
+Proof.
+  intros Hb l _ Hs. apply N.leb_le in Hb. unfold wf_largeoctets. apply N.leb_le.
+  unfold enc_largeoctets in Hs. rewrite lenN_app in Hs. lia.
+Qed.
+
+Lemma sw_withsize {A} (ser : A -> bytes) ty wf bound :
+  size_wf ser ty wf bound -> (bound <=? MAX_VEC_SIZE) = true ->
+  size_wf (enc_withsize ser) ty (wf_withsize ser wf) bound.
+Proof.
+  intros H Hb x Ht Hs. apply N.leb_le in Hb. unfold enc_withsize in Hs. rewrite lenN_app in Hs.
+  unfold wf_withsize. apply andb_true_intro. split; [apply N.leb_le; lia|].
+  apply H; [exact Ht|lia].
+Qed.
+
+Lemma enc_seq_ge {A} (enc : A -> bytes) ty k : min_size enc ty k ->
+  forall l, forallb ty l = true -> k * lenN l <= lenN (enc_seq enc l).
+Proof.
+  intros H. induction l as [|x l IH]; intros Hl.
+  - cbn. lia.
+  - cbn [forallb] in Hl. apply andb_true_iff in Hl. destruct Hl as [Hx Hl].
+    unfold enc_seq. cbn [map concat]. fold (enc_seq enc l). rewrite lenN_app, lenN_cons.
+    pose proof (H x Hx). pose proof (IH Hl). lia.
+Qed.
+Lemma enc_seq_elem {A} (enc : A -> bytes) l x : In x l -> lenN (enc x) <= lenN (enc_seq enc l).
+Proof.
+  induction l as [|y l IH]; intros Hin; [destruct Hin|].
+  unfold enc_seq. cbn [map concat]. fold (enc_seq enc l). rewrite lenN_app.
+  destruct Hin as [->|Hin]; [lia|]. pose proof (IH Hin). lia.
+Qed.
+Lemma sw_elems {A} (enc : A -> bytes) ty wf bound : size_wf enc ty wf bound ->
+  forall l, forallb ty l = true -> lenN (enc_seq enc l) <= bound -> forallb wf l = true.
+Proof.
+  intros H l Ht Hs. apply forallb_forall. intros x Hin. apply H.
+  - rewrite forallb_forall in Ht. apply Ht. exact Hin.
+  - pose proof (enc_seq_elem enc l x Hin). lia.
+Qed.
+
+(** the count bound of an array follows from the size bound when elements are big enough *)
+Lemma sw_array {A} (enc : A -> bytes) ty wf bound k :
+  size_wf enc ty wf bound -> min_size enc ty k -> (bound <? k * 65536) = true ->
+  size_wf (enc_array enc) (forallb ty) (wf_array wf) bound.
+Proof.
+  intros H Hk Hb l Ht Hs. apply N.ltb_lt in Hb. unfold enc_array in Hs. rewrite lenN_app in Hs.
+  unfold wf_array. apply andb_true_intro. split.
+  - apply N.ltb_lt. pose proof (enc_seq_ge enc ty k Hk l Ht).
+    assert (0 < k) by (destruct k; [cbn in Hb; lia|lia]).
+    apply (N.mul_lt_mono_pos_l k); [assumption|]. lia.
+  - apply (sw_elems enc ty wf bound H l Ht). lia.
+Qed.
+
+(** ... otherwise (elements may be 1 or 2 bytes) the count bound stays a hypothesis *)
+Lemma sw_array_counted {A} (enc : A -> bytes) ty wf bound :
+  size_wf enc ty wf bound -> size_wf (enc_array enc) (wf_array ty) (wf_array wf) bound.
+Proof.
+  intros H l Ht Hs. unfold wf_array in *. apply andb_true_iff in Ht. destruct Ht as [Hn Ht].
+  rewrite Hn. cbn [andb]. unfold enc_array in Hs. rewrite lenN_app in Hs.
+  apply (sw_elems enc ty wf bound H l Ht). lia.
+Qed.
+
+(** tactics for the generated per-struct lemmas *)
+Ltac sw_one SW := apply andb_true_intro; split; [apply SW; [assumption | lia] | ].
